@@ -7,6 +7,6 @@ MCMut == IF IOEnv.MUT \in {"BugPtr", "BugWait", "BugListen"} THEN "" ELSE IOEnv.
 MCBugPtr == IOEnv.MUT = "BugPtr"
 MCBugWait == IOEnv.MUT = "BugWait"
 MCBugListen == IOEnv.MUT = "BugListen"
-MCCall == IF IOEnv.MUT = "lexitnonce" THEN {"c1"} ELSE IF IOEnv.MUT \in {"BugListen", "listensize", "wantleak"} THEN {"c1", "d1"} ELSE {"a1", "a2", "b1"}
-MCLCall == IF IOEnv.MUT = "lexitnonce" THEN {"l1", "l2", "l3"} ELSE IF IOEnv.MUT \in {"BugListen", "listensize", "wantleak"} THEN {"l1", "l2"} ELSE {}
+MCCall == IF IOEnv.MUT = "lexitnonce" THEN {"c1"} ELSE IF IOEnv.MUT \in {"BugListen", "listensize", "wantleak", "listenwait"} THEN {"c1", "d1"} ELSE {"a1", "a2", "b1"}
+MCLCall == IF IOEnv.MUT = "lexitnonce" THEN {"l1", "l2", "l3"} ELSE IF IOEnv.MUT \in {"BugListen", "listensize", "wantleak", "listenwait"} THEN {"l1", "l2"} ELSE {}
 =============================================================================
